@@ -177,6 +177,9 @@ def _vf2_feasible(
     # accounts for r_in, r_out
     if len(e1) != len(e2):
         return False
+    # self-loops are not covered by the consistency check below
+    if e1.get(n) != e2.get(m):
+        return False
     # accounts for r_new (only 1 extra level of lookahead)
     if (len(_vf2_new(mapping, g1, n)) != len(_vf2_new(inv_map, g2, m))):
         return False
